@@ -441,3 +441,41 @@ package jobs
 //@   at call StoreEntities#1
 //@     ghost storedG := true
 //@     ghost storeErrG := $result
+
+// ---------------------------------------------------------------------------
+// C03: the query functions offered to transforms. Query passes its arguments through unchanged; PagedQuery scans the
+// first page from the requested start points (or the continuations handed in), every later page exactly from the
+// continuations the previous page returned, always with the requested page size, and hands back the continuations of
+// the page at which it stopped
+//@ assumed (*server.Store).GetManyRelatedEntities
+//@   pure
+//@ assumed (*server.Store).ToRelatedFrom
+//@   pure
+//@ assumed (*server.Store).GetManyRelatedEntitiesAtTime
+//@   pure
+//@ assumed (statsd.ClientInterface).Timing
+//@   pure
+//@ unit (*JavascriptTransform).Query
+//@   prop C03
+//@   requires javascriptTransform != nil
+//@   at call GetManyRelatedEntities#1 before
+//@     assert [C03:transform-query-passes-its-arguments-through] $arg1 == startingEntities && $arg2 == predicate && $arg3 == inverse && $arg4 == datasets && $arg5
+
+//@ unit (*JavascriptTransform).PagedQuery
+//@   prop C03
+//@   ghost firstG bool = true
+//@   ghost prevContG slice
+//@   requires javascriptTransform != nil
+//@   dyncall forEach pure
+//@   ensures [C03:the-continuations-of-the-last-page-are-handed-back] !firstG && !isnil(result) ==> result == prevContG
+//@   at call ToRelatedFrom#1 before
+//@     assert [C03:first-page-starts-at-the-requested-start-points] $arg1 == query.StartURIs && $arg2 == query.Via && $arg3 == query.Inverse && $arg4 == query.Datasets
+//@   at call GetManyRelatedEntitiesAtTime#1 before
+//@     assert [C03:every-later-page-continues-exactly-where-the-previous-page-stopped] !firstG ==> $arg1 == prevContG
+//@     assert [C03:every-page-uses-the-requested-page-size-and-merges-partials] $arg2 == pageSize && $arg3
+//@   at call GetManyRelatedEntitiesAtTime#1
+//@     ghost prevContG := $result0.Cont
+//@     ghost firstG := false
+//@   loop 1
+//@     invariant firstG ==> isnil(conts)
+//@     invariant !firstG ==> conts == prevContG && len(conts) > 0
